@@ -54,6 +54,8 @@ STAGES["C12"] = [
 STAGES["C09"] = [
     dict(name="policy", pkg="ristretto", test="TestVf_C09_Policy", replay_test="TestVfReplay_C09",
          quick=(20000, 1), thorough=(200000, 16), crash_is_violation=True),
+    dict(name="policyconc", pkg="ristretto", test="TestVf_C09_PolicyConc", replay_test="TestVfReplay_C09PolicyConc",
+         quick=(60, 1), thorough=(600, 4), crash_is_violation=True, exclusive=True),
 ]
 
 def _fuzz(pid, pkg, secs):
@@ -106,7 +108,7 @@ RULES = {
     'C14': "cachesm stage: sequential client + harness-owned applier + synctest fake clock (DESIGN.md section 3, E1). Per case a config (MaxCost fitting 2..5 items or roomy, NumCounters, BufferItems, Metrics, IgnoreInternalCost, Cost fn, ShouldUpdate fn, ticker 1..5 s, setBufSize 1..64, bucket 1|5 s, 8|32 keys) and 5..60+ generated actions from Set/SetWithTTL/Del/Get/GetTTL/IterValues/Step(n)/Wait/park-in-Wait/Advance(d)/Sweep/SweepWith(program inside the j-th OnEvict)/Quiesce/UpdateMaxCost/Clear (stand-in or live applier), always ended by drain + Close + calls on the closed cache. Oracle: reference model with explicit FIFO (rules R1-R9); only assertions owned by this property are reported, a case that breaks another property's assertion first is discarded and counted. Roomy TTL profile with Sweep, SweepWith programs (Set with later/no/short TTL, Del, Get on keys of the swept bucket, executed inside the first or second OnEvict of the sweep), late application scenarios and Quiesce. C14-owned: a sweep removes only entries whose current expiration is non-zero and has passed; after Quiesce nothing expired for > 2 buckets is left. Non-trivial: a sweep removed >=1 entry while another entry was re-written during the sweep or applied after its expiry.",
     'C15': "cachesm stage: sequential client + harness-owned applier + synctest fake clock (DESIGN.md section 3, E1). Per case a config (MaxCost fitting 2..5 items or roomy, NumCounters, BufferItems, Metrics, IgnoreInternalCost, Cost fn, ShouldUpdate fn, ticker 1..5 s, setBufSize 1..64, bucket 1|5 s, 8|32 keys) and 5..60+ generated actions from Set/SetWithTTL/Del/Get/GetTTL/IterValues/Step(n)/Wait/park-in-Wait/Advance(d)/Sweep/SweepWith(program inside the j-th OnEvict)/Quiesce/UpdateMaxCost/Clear (stand-in or live applier), always ended by drain + Close + calls on the closed cache. Oracle: reference model with explicit FIFO (rules R1-R9); only assertions owned by this property are reported, a case that breaks another property's assertion first is discarded and counted. Clear/Close-heavy profile with parked waiters. C15-owned: after Clear every key misses, map and expiry index empty, access-frequency state zero, RemainingCost()==MaxCost(), metrics zero, parked waiters released, all previously live values exited once, run continues on the fresh model; after Close: Set false/Get miss/calls return, no processItems goroutine left, no callbacks. Non-trivial: a Clear found a buffered new item and a buffered update or tombstone.",
     'C17': "cachesm stage: sequential client + harness-owned applier + synctest fake clock (DESIGN.md section 3, E1). Per case a config (MaxCost fitting 2..5 items or roomy, NumCounters, BufferItems, Metrics, IgnoreInternalCost, Cost fn, ShouldUpdate fn, ticker 1..5 s, setBufSize 1..64, bucket 1|5 s, 8|32 keys) and 5..60+ generated actions from Set/SetWithTTL/Del/Get/GetTTL/IterValues/Step(n)/Wait/park-in-Wait/Advance(d)/Sweep/SweepWith(program inside the j-th OnEvict)/Quiesce/UpdateMaxCost/Clear (stand-in or live applier), always ended by drain + Close + calls on the closed cache. Oracle: reference model with explicit FIFO (rules R1-R9); only assertions owned by this property are reported, a case that breaks another property's assertion first is discarded and counted. Metrics on. C17-owned at drained points: Hits+Misses==Gets since creation/Clear, KeysAdded-KeysEvicted==resident keys, CostAdded-CostEvicted==MaxCost-RemainingCost (mod 2^64), SetsDropped==refused new-key Sets (and Set returns false iff the reference FIFO is full), GetsKept+GetsDropped<=Gets. Non-trivial: cost-lowering overwrite + eviction + drop. cacheconc stage: 2..16 (thorough ..64) goroutines x 10..120 generated ops on 2..32 shared keys (hot-key bias, some owned keys), GOMAXPROCS 1..16, yielding/fake-sleeping callbacks, setBufSize 1..1024, MaxCost 3..22, inside a synctest bubble; every op and callback stamped from one atomic counter; history oracles are linear-time and schedule-independent. End state laws from the history.",
-    "C09": "policy stage: newDefaultPolicy with NumCounters 2..512, population 0..12 keys (costs 1 / 1..10 / 0..100) built through "
+    "C09": "policyconc stage: one Add that must evict 200..60000 cold residents runs while 1..6 batches of 64 unrelated recorded accesses are pushed 0..4 ms after it started, with the counters 1..200 (or far) from the TinyLFU reset; estimates of every tracked key are read before and after; every victim and a rejection must be justified by the reading before or by the reading after the halving (cases where a noise key touched a tracked counter are discarded and counted). Non-trivial: the period was completed by a concurrent batch, the newcomer lies between the halved and un-halved estimate of a hot resident, and something was evicted. policy stage: newDefaultPolicy with NumCounters 2..512, population 0..12 keys (costs 1 / 1..10 / 0..100) built through "
            "the fast path, 0..20 recorded accesses per key (round-robin, plus noise keys), MaxCost = sum + slack (0, 0..3, 0..60), "
            "incoming (key, cost) fitting / not fitting / == MaxCost / > MaxCost / cost 0 / already resident, own access count 0..20. "
            "Oracle (estimates snapshotted before the call): fits => admitted, no victims; every victim (first occurrences; stale "
